@@ -45,6 +45,87 @@ mod remote_state;
 #[cfg(feature = "verif-hooks")]
 pub(crate) use self::remote_state::path_state_verif;
 
+/// Verification hooks: a [`RemoteMap`] that can be built and driven without a socket.
+#[cfg(feature = "verif-hooks")]
+pub(crate) mod verif {
+    use super::*;
+
+    /// A real [`RemoteMap`] plus the guards it needs to stay alive (like the unit tests'
+    /// `make_remote_map`).  The owner plays the role of the socket actor.
+    #[derive(Debug)]
+    pub struct VerifRemoteMap {
+        inner: RemoteMap,
+        _watchable: n0_watcher::Watchable<BTreeSet<DirectAddr>>,
+        shutdown_token: CancellationToken,
+    }
+
+    impl VerifRemoteMap {
+        /// Creates a remote map with the default path selector and the given lookup services.
+        pub fn new(address_lookup: address_lookup::AddressLookupServices) -> Self {
+            let metrics = Arc::new(SocketMetrics::default());
+            let watchable: n0_watcher::Watchable<BTreeSet<DirectAddr>> =
+                n0_watcher::Watchable::new(BTreeSet::new());
+            let shutdown_token = CancellationToken::new();
+            let inner = RemoteMap::new(
+                metrics,
+                watchable.watch(),
+                address_lookup,
+                shutdown_token.clone(),
+                Arc::new(
+                    crate::socket::biased_rtt_path_selector::BiasedRttPathSelector::default(),
+                ),
+                Span::none(),
+            );
+            Self {
+                inner,
+                _watchable: watchable,
+                shutdown_token,
+            }
+        }
+
+        /// See [`RemoteMap::resolve_remote`].
+        pub async fn resolve_remote(
+            &mut self,
+            addr: EndpointAddr,
+            tx: oneshot::Sender<Result<(), AddressLookupFailed>>,
+        ) {
+            self.inner.resolve_remote(addr, tx).await
+        }
+
+        /// See [`RemoteMap::cleanup`].
+        pub async fn cleanup(&mut self) -> EndpointId {
+            self.inner.cleanup().await
+        }
+
+        /// Whether the sender map has an entry for `id`, and if so whether it is closed.
+        pub fn sender_closed(&self, id: EndpointId) -> Option<bool> {
+            self.inner.senders().get(&id).map(|s| s.is_closed())
+        }
+
+        /// Sends a `RemoteInfo` request the way `Socket::remote_info` does (through the
+        /// read-only sender map, not through the map owner).  Returns `None` if there is no
+        /// sender for `id` or the send failed.
+        pub async fn send_remote_info(
+            &self,
+            id: EndpointId,
+        ) -> Option<oneshot::Receiver<RemoteInfo>> {
+            let (tx, rx) = oneshot::channel();
+            self.inner
+                .senders()
+                .get(&id)?
+                .send(RemoteStateMessage::RemoteInfo(tx))
+                .await
+                .ok()?;
+            Some(rx)
+        }
+
+        /// Cancels the shutdown token shared by all actors.
+        pub fn shutdown(&self) {
+            self.shutdown_token.cancel();
+        }
+    }
+}
+
 // TODO: use this
 // /// Number of endpoints that are inactive for which we keep info about. This limit is enforced
 // /// periodically via [`NodeMap::prune_inactive`].
